@@ -5,11 +5,18 @@ package c16
 
 import (
 	"fmt"
+	"net/http"
+	"net/http/httptest"
+	"net/url"
 	"strconv"
 	"strings"
 	"sync"
 	"time"
 
+	jwt "github.com/dgrijalva/jwt-go/v4"
+	"github.com/influxdata/influxdb/models"
+	"github.com/influxdata/influxdb/query"
+	"github.com/influxdata/influxdb/services/httpd"
 	"github.com/influxdata/influxdb/services/meta"
 	"github.com/influxdata/influxql"
 	"golang.org/x/crypto/bcrypt"
@@ -71,6 +78,11 @@ func genCase(r *fw.Rand) fw.Case {
 				}
 			}
 			ops = append(ops, fmt.Sprintf("authq - %s %s", r.Pick(dbs), ids))
+			if r.Bool() {
+				ops = append(ops, fmt.Sprintf("hw %s %s p1 db0", r.Pick([]string{"none", "basic", "params", "bearer"}), r.Pick([]string{"-", "u0"})))
+			} else {
+				ops = append(ops, fmt.Sprintf("hq %s - p1 db0 %s", r.Pick([]string{"none", "basic"}), ids))
+			}
 		}
 	}
 	steps := 15 + r.Intn(40)
@@ -98,7 +110,18 @@ func genCase(r *fw.Rand) fw.Case {
 			u := r.Pick(append(users, "-", "nobody"))
 			ops = append(ops, fmt.Sprintf("authq %s %s %s", u, r.Pick(append(dbs, "~")), stmts()))
 		case 13:
-			ops = append(ops, fmt.Sprintf("authw %s %s", r.Pick(append(users, "nobody")), r.Pick(dbs)))
+			if r.Bool() {
+				ops = append(ops, fmt.Sprintf("authw %s %s", r.Pick(append(users, "nobody")), r.Pick(dbs)))
+			} else {
+				// the same through the HTTP front, with every credential carrier
+				car := r.Pick([]string{"none", "basic", "params", "bearer"})
+				u := r.Pick(append(users, "-", "nobody"))
+				if r.Bool() {
+					ops = append(ops, fmt.Sprintf("hw %s %s p%d %s", car, u, r.Intn(4), r.Pick(dbs)))
+				} else {
+					ops = append(ops, fmt.Sprintf("hq %s %s p%d %s %s", car, u, r.Intn(4), r.Pick(dbs), stmts()))
+				}
+			}
 		case 14:
 			ops = append(ops, fmt.Sprintf("authn %s p%d", r.Pick(users), r.Intn(4)))
 		default:
@@ -274,6 +297,11 @@ func (s *state) step(op string) string {
 			return "hang"
 		}
 		return "ok"
+	case "hq", "hw":
+		// the same decisions through the HTTP front: a real httpd.Handler with authentication
+		// enabled over this node's meta client, a statement executor and a points writer that
+		// only record that they were reached
+		return s.http(f)
 	case "createuser", "updateuser":
 		// hash tokens stand for real bcrypt hashes
 		g := append([]string(nil), f...)
@@ -283,6 +311,101 @@ func (s *state) step(op string) string {
 		return s.m.Step(strings.Join(g, " "))
 	}
 	return s.m.Step(op)
+}
+
+type recExec struct{ n int }
+
+func (e *recExec) ExecuteStatement(ctx *query.ExecutionContext, stmt influxql.Statement) error {
+	e.n++
+	return nil
+}
+
+type recWriter struct{ n int }
+
+func (w *recWriter) WritePoints(database, retentionPolicy string, consistencyLevel models.ConsistencyLevel, user meta.User, points []models.Point) error {
+	w.n++
+	return nil
+}
+
+const sharedSecret = "verif-shared-secret"
+
+func (s *state) http(f []string) (res string) {
+	defer func() {
+		if r := recover(); r != nil {
+			res = "panic:" + strings.ReplaceAll(fmt.Sprint(r), " ", "_")
+		}
+	}()
+	s.setSplit(false)
+	cfg := httpd.NewConfig()
+	cfg.AuthEnabled = true
+	cfg.SharedSecret = sharedSecret
+	cfg.LogEnabled = false
+	h := httpd.NewHandler(cfg)
+	h.MetaClient = s.c
+	h.QueryAuthorizer = meta.NewQueryAuthorizer(s.c)
+	h.WriteAuthorizer = meta.NewWriteAuthorizer(s.c)
+	ex := &recExec{}
+	h.QueryExecutor = query.NewExecutor()
+	h.QueryExecutor.StatementExecutor = ex
+	pw := &recWriter{}
+	h.PointsWriter = pw
+	h.Version = "0.0.0"
+
+	carrier, user, pass, db := f[1], f[2], f[3], metah.Nm(f[4])
+	if user == "-" {
+		user = ""
+	} else {
+		user = metah.Nm(user)
+	}
+	var req *http.Request
+	vals := url.Values{}
+	vals.Set("db", db)
+	if f[0] == "hq" {
+		var texts []string
+		for _, x := range strings.Split(f[5], ",") {
+			i, err := strconv.Atoi(x)
+			if err != nil || i < 0 || i >= len(extract.C16Statements) {
+				return "bad-op"
+			}
+			texts = append(texts, extract.C16Statements[i])
+		}
+		vals.Set("q", strings.Join(texts, "; "))
+	}
+	if carrier == "params" {
+		if user != "" {
+			vals.Set("u", user)
+		}
+		vals.Set("p", pass)
+	}
+	if f[0] == "hq" {
+		req = httptest.NewRequest("POST", "/query?"+vals.Encode(), nil)
+	} else {
+		req = httptest.NewRequest("POST", "/write?"+vals.Encode(), strings.NewReader("m v=1 1\n"))
+	}
+	switch carrier {
+	case "basic":
+		req.SetBasicAuth(user, pass)
+	case "bearer":
+		tok := jwt.NewWithClaims(jwt.SigningMethodHS256, jwt.MapClaims{"username": user, "exp": time.Now().Add(time.Hour).Unix()})
+		signed, err := tok.SignedString([]byte(sharedSecret))
+		if err != nil {
+			return "err:jwt"
+		}
+		req.Header.Set("Authorization", "Bearer "+signed)
+	case "none", "params":
+	default:
+		return "bad-op"
+	}
+	w := httptest.NewRecorder()
+	h.ServeHTTP(w, req)
+	if f[0] == "hq" {
+		b := 0
+		if ex.n > 0 {
+			b = 1
+		}
+		return fmt.Sprintf("%d exec=%d", w.Code, b)
+	}
+	return fmt.Sprintf("%d wrote=%d", w.Code, pw.n)
 }
 
 func (Prop) RunImpl(c fw.Case) []string {
@@ -318,6 +441,42 @@ func (Prop) Oracle(c fw.Case, implOut []string) fw.Verdict {
 		o := implOut[i]
 		if o == "hang" || strings.HasPrefix(o, "panic") {
 			return fw.Verdict{OK: false, Why: op + " => " + o, Signature: o + " in " + f[0]}
+		}
+		if f[0] == "hq" || f[0] == "hw" {
+			// through the HTTP front: the request must carry valid credentials of a user the
+			// node knows (except the creation of the first administrator), and then the same
+			// grants decide as for authq / authw
+			ran := (f[0] == "hq" && strings.HasPrefix(o, "200")) || (f[0] == "hw" && strings.HasPrefix(o, "204"))
+			if !ran {
+				continue
+			}
+			if f[0] == "hw" && len(view.Users) == 0 {
+				return fw.Verdict{OK: false, Why: op + " => " + o + ": a write ran before any user exists", Signature: "write accepted before any user exists"}
+			}
+			if len(view.Users) > 0 {
+				var u *meta.UserInfo
+				for k := range view.Users {
+					if f[2] != "-" && view.Users[k].Name == metah.Nm(f[2]) {
+						u = &view.Users[k]
+					}
+				}
+				valid := u != nil
+				if valid && (f[1] == "basic" || f[1] == "params") {
+					valid = bcrypt.CompareHashAndPassword([]byte(u.Hash), []byte(f[3])) == nil
+				}
+				if f[1] == "none" {
+					valid = false
+				}
+				if !valid {
+					return fw.Verdict{OK: false, Why: op + " => " + o + ": the request ran without valid credentials of a user the node knows", Signature: f[0] + " ran without valid credentials"}
+				}
+			}
+			// the grants: judged like the direct calls
+			if f[0] == "hq" {
+				f, o = []string{"authq", f[2], f[4], f[5]}, "allow"
+			} else {
+				f, o = []string{"authw", f[2], f[4]}, "allow"
+			}
 		}
 		switch f[0] {
 		case "poll":
